@@ -523,6 +523,27 @@ def runOp (e : Env) (op : Op) (c : Cfg) (d : Durable) : St × Bool :=
 def restart (db : Bool) (d : Durable) : Durable :=
   if db then d else { d with tokenSpent := false }
 
+/-- `CA.Reload` (SIGHUP): a new authority is built from the configuration on disk and is handed
+    the database object the old one had open — the bbolt store, or `db.SimpleDB` with its in-memory
+    set of used tokens.  Nothing is lost, with or without a database. -/
+def reload (d : Durable) : Durable := d
+
+/-- the options `CA.Reload` passes unconditionally to the `New` that builds the reloaded CA
+    (re-derived from the source); `WithDatabase` among them is what `reload` above relies on -/
+def reloadOptions : List String :=
+  ["WithConfigFile", "WithDatabase", "WithIssuerPassword", "WithLinkedCAToken", "WithPassword", "WithQuiet",
+   "WithSSHHostPassword", "WithSSHUserPassword"]
+
+/-- For every provisioner type: the number of ways its `GetTokenID` can return an error (for a
+    token it cannot parse: 2 = parse error + claims error) and whether it may return
+    `ErrAllowTokenReuse`.  `Authority.UseToken` records nothing when `GetTokenID` fails, so a token
+    that parses must get an id (possibly empty, then a hash of the token is used): the token types
+    driven by the harness (JWK, X5C, SSHPOP) have no further error return. -/
+def tokenIDErrors : List (String × Nat × Bool) :=
+  [("ACME", 1, false), ("AWS", 1, false), ("Azure", 3, true), ("GCP", 2, false), ("JWK", 2, false),
+   ("K8sSA", 1, false), ("MockProvisioner", 2, false), ("Nebula", 2, false), ("OIDC", 2, false),
+   ("SCEP", 1, false), ("SSHPOP", 2, false), ("X5C", 2, false), ("noop", 0, false)]
+
 /-- what the client holds after the response -/
 inductive Client where
   | error | certificate | revoked
